@@ -217,10 +217,13 @@ impl Router {
                                     "router.shutdown.take",
                                     &[("handlers", self.handlers.len() as i64)],
                                 );
+                                // Stop routing. The handlers (and whatever they own) go first,
+                                // so that they are gone by the time `shutdown()` returns.
+                                self.handlers.clear();
                                 sender
                                     .send(())
                                     .expect("Failed to send comfirmation of shutdown.");
-                                break;
+                                return;
                             },
                         }
                     },
@@ -231,6 +234,8 @@ impl Router {
                             crate::verif::Scope::enter("router.handler", &[("id", id as i64)]);
                         self.handlers.get_mut(&id).unwrap()(message)
                     },
+                    // The `RouterProxy` was dropped: nothing can be added or routed any more.
+                    IpcSelectionResult::ChannelClosed(id) if id == self.msg_wakeup_id => return,
                     IpcSelectionResult::ChannelClosed(id) => {
                         #[cfg(ipc_channel_verif)]
                         let _verif_scope =
